@@ -412,3 +412,188 @@ def c13_3(I, shape):
                 "alert-only-for-inconsistent-resumption",
                 known={"C13:client-assumes-ticket-resumption":
                        shape["how"] == "ticket"})
+
+
+# ---------------------------------------------------------------------------
+# C13.5  TLS 1.3 server: PSK / ticket selection
+# ---------------------------------------------------------------------------
+import sys as _sys
+import tlslite.handshakehelpers as hhelp
+from tlslite.errors import TLSIllegalParameterException
+
+
+class _Tick(object):
+    def __init__(self, version, suite, created, chain):
+        self.protocol_version = version
+        self.cipher_suite = suite
+        self.creation_time = created
+        self.client_cert_chain = chain
+        self.master_secret = bytearray(48)
+        self.nonce = bytearray(1)
+
+
+def _shapes_c13_5(tier):
+    kinds = ("garbage", "ticket", "external")
+    out = []
+    for k1 in kinds:
+        for k2 in kinds:
+            out.append(dict(ids=[k1, k2]))
+    return out
+
+
+@obligation("C13.5", _shapes_c13_5,
+            functions=["tlslite.tlsconnection:TLSConnection."
+                       "_serverTLS13Handshake"],
+            assumes=["the PSK selection loop of _serverTLS13Handshake is run "
+                     "with a ClientHello offering two identities, each "
+                     "garbage / a decryptable ticket / an external PSK; "
+                     "_tryDecrypt returns a ticket whose protocol version, "
+                     "PRF hash, creation time and stored client chain are "
+                     "symbolic selections; verify_binder is a recorder whose "
+                     "verdict is symbolic; the clock is symbolic; the "
+                     "function is cut at the first key-exchange call and the "
+                     "selection state is read there"],
+            patches=lambda s: (hello_proxies(), hello_stubs()),
+            max_paths=20000, also=("C05",))
+def c13_5(I, shape):
+    """a PSK identity is selected only if its binder verified, the ticket is
+    for this protocol version and PRF and has not expired; the client
+    identity stored in a ticket is attributed to the peer only when that
+    ticket was selected"""
+    now = I.int_range(0, 40, "now")
+    lifetime = I.int_range(1, 10, "ticketLifetime")
+    victim_chain = object()
+    idents = []
+    tickets = {}
+    for n, kind in enumerate(shape["ids"]):
+        name = bytearray(b"id%d" % n + b"x" * 40)
+        idents.append(X.PskIdentity().create(name, 0))
+        if kind == "ticket":
+            ver = I.pick([(3, 4), (3, 3)], "tver")
+            suite = I.pick([CipherSuite.TLS_AES_128_GCM_SHA256,
+                            CipherSuite.TLS_AES_256_GCM_SHA384], "tsuite")
+            created = I.int_range(0, 20, "created")
+            chain = I.pick([None, victim_chain], "tchain")
+            tickets[bytes(name)] = _Tick(ver, suite, created, chain)
+    psk_ext = X.PreSharedKeyExtension().create(
+        idents, [bytearray(32) for _ in idents])
+    modes = X.PskKeyExchangeModesExtension().create([1])
+    ch = M.ClientHello().create((3, 3), bytearray(32), bytearray(32),
+                                [CipherSuite.TLS_AES_128_GCM_SHA256],
+                                extensions=std_extensions(True) +
+                                [modes, psk_ext])
+
+    class S(object):
+        pass
+    settings = HandshakeSettings().validate()
+    settings.ticketKeys = [bytearray(32)]
+    settings.ticketLifetime = lifetime
+    settings.pskConfigs = [(bytearray(b"id%d" % n + b"x" * 40),
+                            bytearray(b"secret"), "sha256")
+                           for n, k in enumerate(shape["ids"])
+                           if k == "external"]
+    conn = tc.TLSConnection(None)
+    conn.version = (3, 4)
+    conn._handshake_hash = None
+    conn._pre_client_hello_handshake_hash = None
+
+    def try_decrypt(stg, identity=None, ticket=None):
+        t = tickets.get(bytes(identity.identity))
+        if t is None:
+            return None, None
+        prf = "sha384" if t.cipher_suite == \
+            CipherSuite.TLS_AES_256_GCM_SHA384 else "sha256"
+        return (identity.identity, bytearray(b"respsk"), prf), t
+    conn._tryDecrypt = try_decrypt
+    verified = []
+    verdict = I.pick([True, False], "binder_ok")
+
+    def verify_binder(client_hello, hashes, position, secret, prf,
+                      external=True):
+        verified.append((position, bytes(secret), prf, external))
+        if not verdict:
+            raise TLSIllegalParameterException("Binder does not verify")
+        return True
+    probe = {}
+
+    def cut_kex(group, version):
+        f = _sys._getframe(1)
+        probe.update(selected=f.f_locals.get("selected_psk"),
+                     psk=f.f_locals.get("psk"),
+                     chain=f.f_locals.get("resumed_client_cert_chain"))
+        raise Cut("key-exchange")
+    conn._getKEX = cut_kex
+
+    class Clock(object):
+        @staticmethod
+        def time():
+            return now
+    saved = (hhelp.HandshakeHelpers.verify_binder, tc.time)
+    hhelp.HandshakeHelpers.verify_binder = staticmethod(verify_binder)
+    tc.time = Clock
+    conn.sock = type("S", (), {"flush": lambda self: None,
+                               "buffer_writes": False})()
+    sent = []
+    conn._sendMsg = lambda m, *a, **k: iter(sent.append(m) or ())
+    conn._shutdown = lambda r: None
+    try:
+        try:
+            for r in conn._serverTLS13Handshake(
+                    settings, ch, CipherSuite.TLS_AES_128_GCM_SHA256,
+                    RSA_KEY, RSA_CHAIN, (3, 4), "rsa_pss_rsae_sha256", None,
+                    False, None, None):
+                pass
+            I.fail("handshake-ran-past-the-cut")
+            return
+        except Cut:
+            kind = "selected-or-not"
+        except TLSLocalAlert as e:
+            kind = "alert"
+            alert = e
+        except (PathAbort, Unsupported):
+            raise
+        except Exception as e:
+            I.fail("PSK selection raised %s" % type(e).__name__,
+                   detail=repr(e))
+            return
+    finally:
+        hhelp.HandshakeHelpers.verify_binder = saved[0]
+        tc.time = saved[1]
+    if kind == "alert":
+        I.check(len(verified) == 1 and not verdict and bool(
+            alert.description == AlertDescription.illegal_parameter),
+            "alert-only-for-a-failed-binder")
+        return
+    sel = probe["selected"]
+    if sel is None:
+        I.check(probe["psk"] is None, "no-psk-without-selection")
+        I.check(probe["chain"] is None,
+                "no-client-identity-without-a-selected-ticket")
+        I.check(verified == [], "no-binder-check-without-selection")
+        return
+    kind_sel = shape["ids"][sel]
+    I.check(kind_sel != "garbage", "garbage-identity-never-selected")
+    I.check(verified == [(sel, bytes(probe["psk"]), "sha256",
+                          kind_sel == "external")] and verdict,
+            "selected-identity-had-its-own-binder-verified")
+    if kind_sel == "ticket":
+        t = tickets[bytes(idents[sel].identity)]
+        I.check(t.protocol_version == (3, 4), "ticket-for-this-version")
+        I.check(t.cipher_suite == CipherSuite.TLS_AES_128_GCM_SHA256,
+                "ticket-prf-matches-the-suite")
+        I.check(NOT(t.creation_time + lifetime < now),
+                "expired-ticket-never-selected")
+        I.check(probe["chain"] is t.client_cert_chain,
+                "client-identity-is-the-selected-tickets")
+    else:
+        I.check(probe["chain"] is None,
+                "external-psk-carries-no-client-identity")
+    # earlier identities were skipped for a reason
+    for j in range(sel):
+        kj = shape["ids"][j]
+        if kj == "ticket":
+            tj = tickets[bytes(idents[j].identity)]
+            I.check(tj.protocol_version != (3, 4) or tj.cipher_suite !=
+                    CipherSuite.TLS_AES_128_GCM_SHA256 or
+                    bool(tj.creation_time + lifetime < now),
+                    "usable-earlier-ticket-not-skipped")
